@@ -268,9 +268,8 @@ func lineEndDocs(thorough bool) []corpus.Doc {
 			continue
 		}
 		src := string(d.Data)
-		mixed := func() string {
+		mixedAt := func(k int) string {
 			var b strings.Builder
-			k := 0
 			for _, ch := range src {
 				if ch == '\n' {
 					b.WriteString([]string{"\r\n", "\n", "\r", "\r\r\n", "\n\r"}[k%5])
@@ -280,13 +279,31 @@ func lineEndDocs(thorough bool) []corpus.Doc {
 				}
 			}
 			return b.String()
-		}()
-		for _, v := range []struct{ name, data string }{
+		}
+		mixed := mixedAt(0)
+		type variant struct{ name, data string }
+		var extra []variant
+		// the other four phases of the rotation (which terminator kind a given line gets), and the document with ONE of
+		// its line ends turned into a bare CR, for every line end in turn: a terminator state carried from one line to
+		// a later one shows only when the right kinds meet (seed c17aj: a bare CR at a read boundary, then a blank LF line)
+		for ph := 1; ph < 5; ph++ {
+			extra = append(extra, variant{fmt.Sprintf("mixed-ph%d", ph), mixedAt(ph)})
+		}
+		nl := 0
+		for j := 0; j < len(src); j++ {
+			if src[j] == '\n' {
+				if nl < 40 {
+					extra = append(extra, variant{fmt.Sprintf("one-cr-%d", nl), src[:j] + "\r" + src[j+1:]})
+				}
+				nl++
+			}
+		}
+		for _, v := range append([]variant{
 			{"crcrlf", strings.ReplaceAll(src, "\n", "\r\r\n")},
 			{"lfcr", strings.ReplaceAll(src, "\n", "\n\r")},
 			{"mixed", mixed},
 			{"cr-last-byte", strings.TrimRight(src, "\n") + "\r"},
-		} {
+		}, extra...) {
 			out = append(out, corpus.Doc{Name: d.Format + "-" + v.name, Format: d.Format, Data: []byte(v.data), Valid: true})
 		}
 	}
